@@ -46,13 +46,21 @@ type catPairV struct {
 }
 type catUnitV struct{}
 
+// catOptV: a variant with an optional field and a nested list of optionals (what is left in a
+// destination from an earlier value of the same variant must not survive into the next one)
+type catOptV struct {
+	N uint8
+	O *uint16
+	L []*uint8
+}
+
 // catEnum is a VaryingDataType written the way dot/types writes them
 // (pointer receiver for SetValue, value receivers for the rest).
 type catEnum struct{ inner any }
 
 func (e *catEnum) SetValue(v any) error {
 	switch v.(type) {
-	case catU32, catBytesV, catPairV, catUnitV:
+	case catU32, catBytesV, catPairV, catUnitV, catOptV:
 		e.inner = v
 		return nil
 	}
@@ -66,6 +74,8 @@ func (e catEnum) IndexValue() (uint, any, error) {
 		return 1, e.inner, nil
 	case catPairV:
 		return 3, e.inner, nil
+	case catOptV:
+		return 4, e.inner, nil
 	case catUnitV:
 		return 7, e.inner, nil
 	}
@@ -80,6 +90,8 @@ func (e catEnum) ValueAt(i uint) (any, error) {
 		return catBytesV{}, nil
 	case 3:
 		return catPairV{}, nil
+	case 4:
+		return catOptV{}, nil
 	case 7:
 		return catUnitV{}, nil
 	}
@@ -137,7 +149,16 @@ func innerOf(k *kernel.K, label string) catInner {
 
 func enumOf(k *kernel.K, label string) catEnum {
 	var e catEnum
-	switch k.Choose(4, label) {
+	switch k.Choose(6, label) {
+	case 4, 5:
+		v := catOptV{N: uint8(u64(k, label+"n")), O: optU16(k, label+"o")}
+		for i := k.Choose(3, label+"ln"); i > 0; i-- {
+			v.L = append(v.L, optU8(k, label+"li"))
+		}
+		if v.L == nil {
+			v.L = []*uint8{}
+		}
+		e.inner = v
 	case 0:
 		e.inner = catU32(u64(k, label+"u"))
 	case 1:
